@@ -6,6 +6,7 @@ representative values and type-directed witnesses are judged by TLC with the den
 TsTypes.tla (Trace_Binding.tla), and the dependencies of a struct holding the row's type are compared
 with the user types among its arguments."""
 import json
+import os
 import time
 
 import bindlib
@@ -286,6 +287,11 @@ def run(tier):
         raise ToolError("third-party rows do not compile: %s" % json.dumps(c3.rejected)[:1500])
     judge_rows(ROWS3, "M", "E", c3, obs3, env, v, acc)
     judge_pairs(True, obs3, v, acc)
+    comp = composed_stage(tier, v, env, acc)
+    if comp["name_drift"] or comp["json_drift"]:
+        v.note("drift: Builtins.tla predicts another name() for %d composed types and another JSON for %d values (samples in the evidence); the verdicts are computed on the real output" % (comp["name_drift"], comp["json_drift"]))
+    if comp["model_invariant_violated"]:
+        v.note("model verdict: TLC reports %s violated on Builtins.tla (%d terms)" % (comp["model_invariant_violated"], comp["model_says_violation"]))
     records, meta = acc["records"], acc["meta"]
     bad, tool, a = bindlib.adjudicate(records, env, "c12")
     for i in sorted(bad):
@@ -296,11 +302,12 @@ def run(tier):
         v.fail({"prop": PROP, "row": m[0], "tag": "value_not_in_type" if m[2] == "ser" else "inhabitant_rejected", "which": m[1]},
                {"json": m[3], "type": m[4], "serde": m[5] if len(m) > 5 else None})
     rc = v.finish()
-    cov = {"states": a.distinct, "transitions": a.generated, "traces_validated_against_impl": len(records) - len(tool),
+    cov = {"states": a.distinct + comp["states"], "transitions": a.generated + comp["transitions"], "traces_validated_against_impl": len(records) - len(tool),
+           "composed_terms": {k: comp[k] for k in comp if k not in ("states", "transitions")},
            "samples": [{"row": m[0], "kind": m[2], "json": m[3], "type": m[4]} for m in meta[:: max(1, len(meta) // 8)][:8]],
            "rows": len(ROWS) + len(ROWS3), "third_party_rows": len(ROWS3), "serialized_values": sum(1 for m in meta if m[2] == "ser"),
            "witnesses": sum(1 for m in meta if m[2] == "wit"), "dependency_rows": acc["ndeps"], "wrapper_content_comparisons": acc["pairs"], "exhaustive": False,
-           "rule": "one row per supported std / serde_json / feature-gated third-party type (and compositions to depth 2-3); per row: real name() and inline() parsed; every representative value's real serde_json output and up to 12 type-directed witnesses judged by TLC; dependencies of `struct D { f: Row }` compared with the user types among the arguments; every transparent wrapper (13) x 10 contents and every shadow impl: name / inline / inline_flattened equal to the content's"}
+           "rule": "one row per supported std / serde_json / feature-gated third-party type (and compositions to depth 2-3); per row: real name() and inline() parsed; every representative value's real serde_json output and up to 12 type-directed witnesses judged by TLC; dependencies of `struct D { f: Row }` compared with the user types among the arguments; every transparent wrapper (13) x 10 contents and every shadow impl: name / inline / inline_flattened equal to the content's; composed terms: every composition of the std constructors to depth 2 (Builtins.tla / MC_Builtins.tla: predicted name() and JSON compared with the real ones, model invariant C12_Model, real values and witnesses adjudicated)"}
     vlib.write_evidence(PROP, tier, "model_checking", cov,
                         ["arrays carry values only up to N = 32 (serde's limit); N = 64 / 65 are checked by name only",
                          "string-like types with a value grammar (addresses, dates, uuids, urls, versions) are checked for shape only: serialized values, no witnesses",
@@ -312,3 +319,180 @@ def run(tier):
 def replay(path):
     print(json.dumps(json.load(open(path)), indent=1)[:3000])
     return 1
+
+
+# ---- composed terms: PREDICT with Builtins.tla (MC_Builtins.tla), REPLAY as type aliases, compare and adjudicate
+B_LEAVES = {
+    "i32": ("i32", ["1", "-7"]), "u64": ("u64", ["3u64", "0u64"]), "f64": ("f64", ["1.5", "2.0"]), "bool": ("bool", ["true", "false"]),
+    "char": ("char", ["'c'", "'é'"]), "String": ("String", ['"hi".to_string()', "String::new()"]), "unit": ("()", ["()"]),
+    "Inner": ("Inner", ["Inner::v1()", "Inner::v2()"]), "UnitE": ("UnitE", ["UnitE::A", "UnitE::B"]),
+}
+B_KEY = ["String", "i32", "u64", "char", "bool", "UnitE"]
+B_HASH = ["i32", "u64", "bool", "char", "String", "UnitE"]
+B_COPY = ["i32", "u64", "f64", "bool", "char"]
+B_TYPE = {"Option": "Option<{0}>", "Vec": "Vec<{0}>", "HashSet": "HashSet<{0}>", "BTreeSet": "BTreeSet<{0}>", "Slice": "Box<[{0}]>", "Array2": "[{0}; 2]",
+          "Array0": "[{0}; 0]", "Tuple1": "({0},)", "Tuple2": "({0}, {1})", "Tuple3": "({0}, {1}, {2})", "HashMap": "HashMap<{0}, {1}>",
+          "BTreeMap": "BTreeMap<{0}, {1}>", "Result": "Result<{0}, {1}>", "Range": "std::ops::Range<{0}>", "RangeInclusive": "std::ops::RangeInclusive<{0}>",
+          "Box": "Box<{0}>", "Rc": "std::rc::Rc<{0}>", "Arc": "std::sync::Arc<{0}>", "Cow": "std::borrow::Cow<'static, {0}>", "Cell": "std::cell::Cell<{0}>",
+          "RefCell": "std::cell::RefCell<{0}>", "Mutex": "std::sync::Mutex<{0}>", "RwLock": "std::sync::RwLock<{0}>", "Weak": "std::sync::Weak<{0}>",
+          "PhantomData": "std::marker::PhantomData<{0}>", "Ref": "&'static {0}"}
+B_WRAP = {"Box": "Box::new({0})", "Rc": "std::rc::Rc::new({0})", "Arc": "std::sync::Arc::new({0})", "Cow": "std::borrow::Cow::Owned({0})",
+          "Cell": "std::cell::Cell::new({0})", "RefCell": "std::cell::RefCell::new({0})", "Mutex": "std::sync::Mutex::new({0})",
+          "RwLock": "std::sync::RwLock::new({0})", "Ref": "&*Box::leak(Box::new({0}))"}
+B_ALL_UNARY = ["Option", "Vec", "HashSet", "BTreeSet", "Slice", "Array2", "Array0", "Tuple1", "Range", "RangeInclusive", "Box", "Rc", "Arc", "Cow", "Cell",
+               "RefCell", "Mutex", "RwLock", "Weak", "PhantomData", "Ref"]
+
+
+def b_type(t):
+    if not t["as"]:
+        return B_LEAVES[t["c"]][0]
+    return B_TYPE[t["c"]].format(*[b_type(a) for a in t["as"]])
+
+
+def b_value(t, v):
+    f, c = v["f"], t["c"]
+    if f == "leaf":
+        return B_LEAVES[c][1][v["i"] - 1]
+    xs = None
+    if f == "wrap":
+        return B_WRAP[c].format(b_value(t["as"][0], v["vs"][0]))
+    if f == "some":
+        return "Some(%s)" % b_value(t["as"][0], v["vs"][0])
+    if f == "none":
+        return "None"
+    if f == "dead":
+        return "std::sync::Weak::new()"
+    if f == "phantom":
+        return "std::marker::PhantomData"
+    if f == "seq":
+        if c in ("Tuple2", "Tuple3"):
+            xs = [b_value(t["as"][i], x) for i, x in enumerate(v["vs"])]
+            return "(%s)" % ", ".join(xs)
+        xs = [b_value(t["as"][0], x) for x in v["vs"]]
+        if c == "Tuple1":
+            return "(%s,)" % xs[0]
+        if c in ("Array2", "Array0"):
+            return "[%s]" % ", ".join(xs)
+        if c == "Vec":
+            return "vec![%s]" % ", ".join(xs)
+        if c == "Slice":
+            return "vec![%s].into_boxed_slice()" % ", ".join(xs)
+        return "%s::from([%s])" % (c, ", ".join(xs)) if xs else "%s::new()" % c
+    if f == "map":
+        if not v["vs"]:
+            return "%s::new()" % c
+        return "%s::from([(%s, %s)])" % (c, B_LEAVES[t["as"][0]["c"]][1][v["i"] - 1], b_value(t["as"][1], v["vs"][0]))
+    if f == "ok":
+        return "Ok(%s)" % b_value(t["as"][0], v["vs"][0])
+    if f == "err":
+        return "Err(%s)" % b_value(t["as"][1], v["vs"][0])
+    if f == "range":
+        a, b = [b_value(t["as"][0], x) for x in v["vs"]]
+        return "(%s)..(%s)" % (a, b) if c == "Range" else "(%s)..=(%s)" % (a, b)
+    raise ToolError("value form " + f)
+
+
+def b_mentions(t, names):
+    return t["c"] in names or any(b_mentions(a, names) for a in t["as"])
+
+
+def b_depth(t):
+    return 0 if not t["as"] else 1 + max(b_depth(a) for a in t["as"])
+
+
+def composed_stage(tier, v, env, acc):
+    """-> statistics of the composed-terms stage"""
+    import derivelib
+    q = tier == "quick"
+    # leaf facts, measured
+    lunits = bindlib.helper_units()
+    for n, (ty, vals) in B_LEAVES.items():
+        lunits.append(corpus.Unit("BL_" + n.replace("()", "unit"), "pub type BL_%s = %s;" % (n, ty), vals, serde=True, deser=False))
+        if n in B_KEY:
+            lunits.append(corpus.Unit("BK_" + n, "pub type BK_%s = BTreeMap<%s, i32>;" % (n, ty), ["BTreeMap::from([(%s, 0)])" % x for x in vals], serde=True, deser=False))
+    lc = corpus.Corpus("builtin-leaves", lunits)
+    lobs = lc.observe()
+    if lc.rejected:
+        raise ToolError("leaf units do not compile: %s" % json.dumps(lc.rejected)[:800])
+    leaf = {}
+    for n in B_LEAVES:
+        o = lobs["BL_" + n]
+        keys = []
+        if n in B_KEY:
+            for s in lobs["BK_" + n]["samples"]:
+                k = list(json.loads(s["ok"]).keys())[0]
+                keys.append({"s": k, "num": bool(__import__("re").fullmatch(r"-?\d+(\.\d+)?", k))})
+        leaf[n] = {"ts": tsparse.strip(tsparse.parse_type(o["info"]["name"]["ok"])), "vals": [tsparse.json_value(json.loads(s["ok"])) for s in o["samples"]], "keys": keys}
+    leaves = ["i32", "u64", "String", "unit", "Inner", "UnitE", "bool"] if q else list(B_LEAVES)
+    cfg = {"leaf": leaf, "env": {k: env[k] for k in ("Inner", "UnitE")}, "leaves": leaves,
+           "keyleaves": ["String", "i32", "UnitE"] if q else B_KEY, "hashleaves": [x for x in B_HASH if x in leaves],
+           "copyleaves": [x for x in B_COPY if x in leaves], "second": ["i32", "String"], "depth": 2,
+           "levels": [{"unary": B_ALL_UNARY, "nary": ["Result", "Tuple2", "Tuple3"], "maps": ["HashMap", "BTreeMap"]},
+                      {"unary": ["Option", "Vec", "Mutex", "Weak"] if q else B_ALL_UNARY, "nary": [] if q else ["Result", "Tuple2"],
+                       "maps": ["BTreeMap"]}]}
+    cfgp = os.path.join(vlib.TMP, "builtins-cfg.json")
+    json.dump(cfg, open(cfgp, "w"))
+    r = vlib.run_tlc("MC_Builtins", "MC_Builtins.cfg", workers=12, env={"VERIF_BUILTINS": cfgp}, timeout=3000, tags=("PRED",), metatag="c12b", xmx="8g")
+    model_violated = r.violated
+    if model_violated:
+        r = vlib.run_tlc("MC_Builtins", "MC_Builtins_report.cfg", workers=12, env={"VERIF_BUILTINS": cfgp}, timeout=3000, tags=("PRED",), metatag="c12b", xmx="8g")
+    vlib.tlc_must_succeed(r, "MC_Builtins")
+    preds = sorted(r.payloads("PRED"), key=lambda p: json.dumps(p["term"], sort_keys=True))
+    units = bindlib.helper_units()
+    for n, p in enumerate(preds):
+        t = p["term"]
+        de = not b_mentions(t, {"Ref", "Weak"})
+        units.append(corpus.Unit("CT%d" % n, "pub type CT%d = %s;" % (n, b_type(t)), [b_value(t, x["v"]) for x in p["values"]], serde=True, deser=de, meta={"pred": p}))
+    c = corpus.Corpus("builtin-terms-" + tier, units)
+    obs = c.observe()
+    if c.rejected:
+        raise ToolError("composed terms do not compile: %s" % json.dumps(c.rejected)[:1500])
+    st = {"terms": len(preds), "by_depth": {}, "name_equal": 0, "name_drift": 0, "json_equal": 0, "json_drift": 0, "model_says_violation": 0,
+          "states": r.distinct, "transitions": r.generated, "model_invariant_violated": model_violated}
+    wreqs = []
+    for n, p in enumerate(preds):
+        t = p["term"]
+        ty = b_type(t)
+        st["by_depth"][str(b_depth(t))] = st["by_depth"].get(str(b_depth(t)), 0) + 1
+        if not p["model_ok"]:
+            st["model_says_violation"] += 1
+        o = obs["CT%d" % n]
+        info = o["info"]
+        if "ok" not in info["name"]:
+            v.fail({"prop": PROP, "row": ty, "tag": "name_panics", "composed": True}, info["name"])
+            continue
+        try:
+            root = tsparse.strip(tsparse.parse_type(info["name"]["ok"]))
+        except tsparse.TsSyntaxError as e:
+            v.fail({"prop": PROP, "row": ty, "tag": "type_does_not_parse", "which": "name", "composed": True}, {"text": info["name"]["ok"], "error": str(e)})
+            continue
+        if derivelib.norm(root) == derivelib.norm(p["ts"]):
+            st["name_equal"] += 1
+        else:
+            st["name_drift"] += 1
+            st.setdefault("drift_samples", []).append({"type": ty, "real": info["name"]["ok"], "model": json.dumps(derivelib.norm(p["ts"]))[:300]})
+        for pv, s in zip(p["values"], o["samples"]):
+            if "ok" not in s:
+                v.fail({"prop": PROP, "row": ty, "tag": "serde_refuses_value", "composed": True}, {"value": b_value(t, pv["v"]), "error": s})
+                continue
+            rj = tsparse.json_value(json.loads(s["ok"]))
+            if rj == pv["json"]:
+                st["json_equal"] += 1
+            else:
+                st["json_drift"] += 1
+                st.setdefault("drift_samples", []).append({"type": ty, "value": b_value(t, pv["v"]), "real_json": s["ok"], "model_json": json.dumps(pv["json"])[:300]})
+            acc["records"].append({"kind": "ser", "decls": [], "root": root, "json": rj, "accepted": True, "reser": {"k": "null"}})
+            acc["meta"].append((ty, "name", "ser", s["ok"], info["name"]["ok"]))
+        if units[len(bindlib.helper_units()) + n].deser and b_depth(t) <= (1 if q else 2) and not b_mentions(t, {"char", "f64"}):
+            for wn, w in enumerate(witness.witnesses(root, env, limit=4)):
+                wreqs.append(("cw-%d-%d" % (n, wn), "CT%d" % n, json.dumps(w), root, ty, info["name"]["ok"], w))
+    res = c.deser([(a_, b_, cc) for a_, b_, cc, *_ in wreqs]) if wreqs else {}
+    for wid, uname, js, root, ty, text, w in wreqs:
+        r_ = res[wid]
+        ok_ = "ok" in r_
+        acc["records"].append({"kind": "wit", "decls": [], "root": root, "json": tsparse.json_value(w), "accepted": ok_,
+                               "reser": tsparse.json_value(json.loads(r_["ok"])) if ok_ else {"k": "null"}})
+        acc["meta"].append((ty, "name", "wit", js, text, r_))
+    st["witnesses"] = len(wreqs)
+    st["drift_samples"] = st.get("drift_samples", [])[:8]
+    return st
